@@ -27,14 +27,14 @@ Variable fixed : bool.
 Fixpoint sel_kids (p : path) (i : nat) (l : list (tree V)) (a : addr) (st : selst) : selst * list addr :=
   match l with
   | [] => (st, [])
-  | k :: rest => let '(st', out) := sel_run V fixed p k (i :: a) st in
+  | k :: rest => let '(st', out) := sel_run V fixed false p k (i :: a) st in
                  let '(st'', out') := sel_kids p (S i) rest a st' in (st'', out ++ out')
   end.
 
 Definition sel_node (p : path) (nm : N) (ats : list (N * V)) (ks : list (tree V)) (a : addr) (st : selst)
   : selst * list addr :=
   let '(s, ed, md) := st in
-  let s1 := fst (p_start V fixed p s nm ats) in
+  let s1 := fst (p_start V fixed false p s nm ats) in
   let ed1 := S ed in
   let trig := sel_trigger (mat s1) md in
   let md1 := if trig then Some ed1 else md in
@@ -45,20 +45,20 @@ Definition sel_node (p : path) (nm : N) (ats : list (N * V)) (ks : list (tree V)
   ((fst (p_end fixed s2), pred ed2, md3), here ++ snd r).
 
 Lemma sel_run_unfold : forall p nm ats sm nl v ks a st,
-  sel_run V fixed p (Node nm ats sm nl v ks) a st = sel_node p nm ats ks a st.
+  sel_run V fixed false p (Node nm ats sm nl v ks) a st = sel_node p nm ats ks a st.
 Proof.
   intros p nm ats sm nl v ks a [[s ed] md]. unfold sel_node. cbn [sel_run].
-  set (s1 := fst (p_start V fixed p s nm ats)).
+  set (s1 := fst (p_start V fixed false p s nm ats)).
   set (st1 := (s1, S ed, if sel_trigger (mat s1) md then Some (S ed) else md)).
   assert (E : forall l i st,
              (fix go (i : nat) (l : list (tree V)) (st : selst) {struct l} : selst * list addr :=
                 match l with
                 | [] => (st, [])
-                | k :: rest => let '(st', out) := sel_run V fixed p k (i :: a) st in
+                | k :: rest => let '(st', out) := sel_run V fixed false p k (i :: a) st in
                                let '(st'', out') := go (S i) rest st' in (st'', out ++ out')
                 end) i l st = sel_kids p i l a st).
   { induction l as [|k rest IH]; intros i st; [reflexivity|].
-    cbn [sel_kids]. destruct (sel_run V fixed p k (i :: a) st) as [st' out]. rewrite IH. reflexivity. }
+    cbn [sel_kids]. destruct (sel_run V fixed false p k (i :: a) st) as [st' out]. rewrite IH. reflexivity. }
   rewrite E. reflexivity.
 Qed.
 
